@@ -89,7 +89,11 @@ package mapping
 // never panics on an ill-typed document value: every type assertion and index below is proved to succeed
 //@   safety typeassert
 //@   replay mapping_illtyped
-//@   opaque Deref, fillSliceValue, Unmarshal
+//@   opaque Deref, fillSliceValue, Unmarshal, derefContainer
+//@   replay-for nested-list-filled-through-its-own-pointer mapping_ptr_elems
+// a nested list goes into a slot of list type: when the element type is a POINTER to a list the slot is allocated
+// first and the list it points to is filled (a []int cannot be assigned to a *[]int slot)
+//@   loop 1 iteration-ensures [nested-list-filled-through-its-own-pointer] calls(u.fillSlice) == 1 ==> calls(derefContainer) == 1 && arg(derefContainer, 0) == baseType && calls(Index) == 2 && arg(Index, 0, 2) == conv && arg(Index, 1, 2) == at_head(i) && arg(derefContainer, 1) == ret(Index, 0, 2) && arg(u.fillSlice, 1) == ret(derefContainer, 0) && arg(u.fillSlice, 2) == ret(derefContainer, 1)
 // every struct element of the list is decoded into a value newly made for that element (so nothing an earlier
 // element set - e.g. an optional field - can show through in a later one)
 //@   loop 1 iteration-ensures [struct-element-decoded-into-its-own-new-value] calls(u.Unmarshal) == 1 ==> calls(reflect.New) == 1 && arg(Interface, 0, 2) == ret(reflect.New) && arg(u.Unmarshal, 2) == ret(Interface, 0, 2) && arg(u.Unmarshal, 1) == unbox(ret(Interface, 0, 1), map[string]any)
@@ -435,6 +439,9 @@ package mapping
 //@   prop C05
 //@   opaque UnmarshalFromString, Deref, fillSliceValue
 //@   requires u != nil
+//@   replay mapping_ptr_elems
+// the new slice has the field's own element type (pointer elements included), so it can be stored in the field
+//@   ensures [new-slice-of-the-fields-element-type] calls(reflect.SliceOf) >= 1 ==> calls(reflect.SliceOf) == 1 && arg(reflect.SliceOf, 0) == ret(fieldType.Elem) && arg(reflect.MakeSlice, 0) == ret(reflect.SliceOf)
 //@   loop 1 invariant 0 <= i && i <= len(slice) && calls(fillSliceValue) == i && calls(Set) == 0 && calls(reflect.MakeSlice) == 1
 //@   loop 1 iteration-ensures [element-through-the-checked-store] calls(u.fillSliceValue) == 1 && arg(fillSliceValue, 2) == at_head(i) && arg(fillSliceValue, 3) == baseFieldKind && arg(fillSliceValue, 1) == conv && arg(fillSliceValue, 4) == slice[at_head(i)] && ret(fillSliceValue) == nil
 //@   ensures [decode-error] calls(UnmarshalFromString) == 1 && ret(UnmarshalFromString) != nil ==> result == ret(UnmarshalFromString) && calls(Set) == 0
@@ -628,3 +635,13 @@ package mapping
 //@   loop 1 iteration-ensures [field-processed-into-the-result] calls(processMember) == 1 && arg(processMember, 2) == ret && ret(processMember) == nil
 //@   ensures [first-error-stops] result1 != nil ==> result1 == ret(processMember, 0, last) && result0 == nil
 //@   ensures [all-fields] result1 == nil ==> result0 == local(ret) && tail(true)
+
+// derefContainer: a settable pointer field is allocated when nil and replaced by what it points to (type and
+// value together); anything else is handed back unchanged.
+//@ func derefContainer
+//@   prop C05
+//@   inline always
+//@   opaque maybeNewValue
+//@   let ptr = tkind(fieldType.tag, fieldType.val) == 22
+//@   ensures [non-pointer-or-unsettable-unchanged] !ptr || !ret(value.CanSet) ==> result0 == fieldType && result1 == value && calls(maybeNewValue) == 0
+//@   ensures [pointer-allocated-and-followed] ptr && ret(value.CanSet) ==> calls(maybeNewValue, fieldType, value) == 1 && result0 == ret(fieldType.Elem) && result1 == ret(value.Elem) && before(maybeNewValue, value.Elem)
